@@ -327,14 +327,20 @@ impl CelValue {
         if let CelValue::Int(l) = lhs {
             match rhs {
                 CelValue::Int(_) => (lhs, rhs),
-                CelValue::UInt(u) => (lhs, (u as i64).into()),
+                CelValue::UInt(u) => match i64::try_from(u) {
+                    Ok(u) => (lhs, u.into()),
+                    Err(_) => (lhs, rhs),
+                },
                 CelValue::Float(_) => ((l as f64).into(), rhs),
                 CelValue::Bool(b) => (lhs, (b as i64).into()),
                 _ => (lhs, rhs),
             }
         } else if let CelValue::UInt(l) = lhs {
             match rhs {
-                CelValue::Int(_) => ((l as i64).into(), rhs),
+                CelValue::Int(_) => match i64::try_from(l) {
+                    Ok(l) => (l.into(), rhs),
+                    Err(_) => (lhs, rhs),
+                },
                 CelValue::UInt(_) => (lhs, rhs),
                 CelValue::Float(_) => ((l as f64).into(), rhs),
                 CelValue::Bool(b) => (lhs, (b as u64).into()),
@@ -380,6 +386,9 @@ impl CelValue {
         match (lhs, rhs) {
             (CelValue::Int(l), CelValue::Int(r)) => Ok(l.partial_cmp(&r)),
             (CelValue::UInt(l), CelValue::UInt(r)) => Ok(l.partial_cmp(&r)),
+            // only reached when the uint does not fit an int (see type_prop)
+            (CelValue::Int(_), CelValue::UInt(_)) => Ok(Some(Ordering::Less)),
+            (CelValue::UInt(_), CelValue::Int(_)) => Ok(Some(Ordering::Greater)),
             (CelValue::Float(l), CelValue::Float(r)) => Ok(l.partial_cmp(&r)),
             (CelValue::Bool(l), CelValue::Bool(r)) => Ok(l.partial_cmp(&r)),
             (CelValue::String(l), CelValue::String(r)) => Ok(l.partial_cmp(&r)),
